@@ -21,6 +21,14 @@ Oracles (written from the property statement, no code shared with the implementa
            the patch weights are non-negative, therefore peaks whose patch may contain a
            negative entry are judged in their own bucket
            ``refine:half-patch-bound:negative-patch`` (DESIGN.md section 4, D5).
+  layout   the tensor handed to the code under test holds the case's values in a drawn memory
+           layout: contiguous | channels_last | permuted view of a buffer in another axis order |
+           slice of a larger tensor | strided view | expanded (stride 0) view (value model and
+           layout drawn as ONE pair).  Values are identical, so every oracle above applies
+           unchanged; the indep probes re-run one map, one whole channel ``cms[:, c:c+1]`` or one
+           whole sample; (metamorphic) the peak set equals the one for the contiguous copy and the
+           refined coordinates agree for non-negative patches.  A bucket that fails only with the
+           non-contiguous tensor carries the suffix ``:only-with-noncontiguous-layout``.
 """
 
 import numpy as np
@@ -37,7 +45,9 @@ RULE = (
     "maximum}; patch in {3,5,7,4}); judged against a brute-force 8-neighbour scan, single-map re-runs "
     "and the refinement laws; non-trivial = the batch holds >= 1 true peak AND >= 1 tie/plateau among "
     "the top values (a cell above threshold that is >= all neighbours and == one of them, or a map "
-    "maximum attained twice) AND B*C > 1; distinct by hash of the serialised case"
+    "maximum attained twice) AND B*C > 1; the values are handed over in a drawn memory layout (contiguous / "
+    "channels_last / permuted view / slice of a larger tensor / strided / expanded; value model and layout "
+    "drawn as one pair); distinct by hash of the serialised case"
 )
 ASSUMPTIONS = [
     "maps are finite float32 tensors with |v| <= 2 (kornia's dilation encodes 'excluded' as -1e4, so "
@@ -59,11 +69,245 @@ ASSUMPTIONS = [
     "as class refine=zero-mass-patch / excluded, not judged (see final report)",
     "order of the rough tuples is not asserted (the statement only fixes the set); order is asserted to "
     "be *unchanged* by refinement",
-    "single-map re-runs are done for at most 3 drawn (b,c) slots per case",
+    "single-map / whole-channel / whole-sample re-runs are done for at most 3 drawn (b,c) slots per case",
+    "memory layouts: the tensor under test always has the case's shape and values (checked, harness error "
+    "otherwise); cells of the larger tensor outside the view hold 0, +-9 or noise in [-2,2] (|v| << 1e4), "
+    "never NaN/inf; an 'expanded' (stride 0) view is only built when all samples (or all channels) hold "
+    "identical maps - the generator copies slot 0 over the others; every call of the code under test gets "
+    "a freshly built tensor, the numpy reference is never shared with it",
 ]
 
 TOL_INDEP = 1e-4  # refined coordinates of one map, alone vs inside a batch: same arithmetic up to
 # the batched 3x3 solve of the perspective transform (observed differences <= 1e-6)
+
+
+# ------------------------------------------------------------------------------------
+# memory layout axis (same code as in checks/c07.py): the SAME values handed over with different strides.  Real callers pass
+# network outputs in channels_last format, maps permuted from (S,H,W,C), channel / sample / crop
+# slices of a larger tensor, strided and expanded views; the property quantifies over "every batch
+# of confidence maps", so every oracle applies unchanged to every layout.
+
+# weights: ~1/6 plain contiguous, the rest spread over the non-contiguous kinds
+LAYOUTS = [
+    "contiguous", "contiguous", "channels_last", "channels_last", "permuted", "permuted",
+    "slice", "slice", "slice", "strided", "strided", "expanded",
+]
+# physical axis order of the buffer the (S,C,H,W) tensor is permuted back from
+PERM_ORDERS = [[0, 2, 3, 1], [0, 2, 3, 1], [0, 1, 3, 2], [1, 0, 2, 3], [2, 3, 0, 1], [3, 2, 1, 0], [0, 3, 2, 1]]
+# which axes of the larger tensor carry extra entries around the wanted block
+SLICE_AXES = ["c", "c", "c", "b", "bc", "w", "h", "hw", "cw", "bchw"]
+FILLS = ["high", "high", "zero", "low", "noise"]
+NONCONTIG_ONLY = ":only-with-noncontiguous-layout"
+PROBE_KINDS = ["cell", "cell", "channel", "channel", "sample"]
+MODEL_LAYOUT_PAIRS = [(m, l) for m in pm.LOCAL_MODELS for l in LAYOUTS]
+
+
+def draw_layout(draw, st, kind):
+    """JSON description of one memory layout of the given kind (independent of the map shape)."""
+    lay = {"kind": kind}
+    if kind == "permuted":
+        lay["order"] = list(draw(st.sampled_from(PERM_ORDERS)))
+    elif kind == "slice":
+        axes = draw(st.sampled_from(SLICE_AXES))
+        pads = [0] * 8
+        for i, a in enumerate("bchw"):
+            if a in axes:
+                lo, hi = draw(st.sampled_from([(1, 0), (0, 1), (1, 1), (2, 1), (0, 2)]))
+                pads[2 * i], pads[2 * i + 1] = lo, hi
+        lay.update(pads=pads, fill=draw(st.sampled_from(FILLS)), seed=draw(st.integers(0, 2**31 - 1)))
+    elif kind == "strided":
+        steps = list(draw(st.sampled_from([(1, 1, 1, 2), (1, 1, 2, 1), (1, 1, 2, 2), (1, 2, 1, 1), (2, 1, 1, 1), (1, 2, 1, 3), (2, 2, 2, 2), (1, 1, 3, 2)])))
+        lay.update(steps=steps, fill=draw(st.sampled_from(FILLS)), seed=draw(st.integers(0, 2**31 - 1)))
+    elif kind == "expanded":
+        lay["dim"] = draw(st.sampled_from([0, 1]))
+    return lay
+
+
+def expand_values(arr, layout):
+    """An expanded (stride 0) view is only legal when all samples (or channels) hold the same maps:
+    the generator copies slot 0 of the expanded axis over the others (in place)."""
+    if layout["kind"] == "expanded":
+        if layout["dim"] == 0:
+            arr[1:] = arr[:1]
+        else:
+            arr[:, 1:] = arr[:, :1]
+    return arr
+
+
+def _filler(shape, layout):
+    """Content of the larger tensor around / between the wanted cells.  'high' (9.0) exceeds every map
+    value, so code that reads outside the view reports it; never NaN/inf."""
+    fill = layout.get("fill", "zero")
+    if fill == "noise":
+        return np.random.RandomState(int(layout["seed"])).uniform(-2.0, 2.0, size=shape).astype(pm.F32)
+    return np.full(shape, {"high": 9.0, "low": -9.0, "zero": 0.0}[fill], dtype=pm.F32)
+
+
+def build_layout(arr, layout, torch):
+    """A NEW float32 tensor of shape arr.shape holding exactly arr's values in the given layout.
+    Called once per call of the code under test: nothing the callee does to its argument (or to the
+    storage around it) can reach the numpy reference or a later call."""
+    kind = layout["kind"]
+    B, C, H, W = arr.shape
+    if kind == "contiguous":
+        t = torch.from_numpy(arr.copy())
+    elif kind == "channels_last":
+        t = torch.from_numpy(arr.copy()).contiguous(memory_format=torch.channels_last)
+    elif kind == "permuted":
+        order = [int(i) for i in layout["order"]]
+        base = torch.from_numpy(np.ascontiguousarray(arr.transpose(order)))
+        t = base.permute(*[order.index(i) for i in range(4)])
+    elif kind == "slice":
+        p = [int(i) for i in layout["pads"]]
+        big = _filler((B + p[0] + p[1], C + p[2] + p[3], H + p[4] + p[5], W + p[6] + p[7]), layout)
+        sl = (slice(p[0], p[0] + B), slice(p[2], p[2] + C), slice(p[4], p[4] + H), slice(p[6], p[6] + W))
+        big[sl] = arr
+        t = torch.from_numpy(big)[sl]
+    elif kind == "strided":
+        s = [int(i) for i in layout["steps"]]
+        big = _filler((B * s[0], C * s[1], H * s[2], W * s[3]), layout)
+        sl = (slice(None, None, s[0]), slice(None, None, s[1]), slice(None, None, s[2]), slice(None, None, s[3]))
+        big[sl] = arr
+        t = torch.from_numpy(big)[sl]
+    elif kind == "expanded":
+        first = arr[:1] if int(layout["dim"]) == 0 else arr[:, :1]
+        if not np.array_equal(np.broadcast_to(first, arr.shape), arr):
+            raise runner.HarnessError("layout generator: 'expanded' needs identical maps along the expanded axis")
+        t = torch.from_numpy(first.copy()).expand(B, C, H, W)
+    else:
+        raise runner.HarnessError(f"unknown layout {kind}")
+    if tuple(t.shape) != arr.shape or t.dtype != torch.float32 or not torch.equal(t, torch.from_numpy(arr)):
+        raise runner.HarnessError(f"layout builder {layout} changed the values")
+    return t
+
+
+def layout_classes(res, arr, layout, torch):
+    noncontig = not build_layout(arr, layout, torch).is_contiguous()
+    res.cls(f"layout={layout['kind']}", "layout-strides=" + ("noncontiguous" if noncontig else "contiguous"))
+    return noncontig
+
+
+def attribute_layout(res, layout, rerun_contiguous):
+    """Failure triage only (never runs on a passing case): a bucket that fails with the drawn layout but
+    not with the contiguous copy of the same values gets the suffix NONCONTIG_ONLY, so that a
+    layout-specific root cause is told apart from one that shows for every layout."""
+    if layout["kind"] == "contiguous" or not res.failures:
+        return res
+    ref = {b for b, _ in rerun_contiguous().failures}
+    res.failures = [
+        (b if (b in ref or b.startswith("layout:")) else b + NONCONTIG_ONLY, m + ("" if b in ref else f" [layout {layout}]"))
+        for b, m in res.failures
+    ]
+    return res
+
+
+def _block(kind, b, c):
+    """Index of the sub-batch one independence probe looks at: one map, one whole channel (all
+    samples - a non-contiguous view of a contiguous batch when B > 1) or one whole sample."""
+    if kind == "channel":
+        return (slice(None), slice(c, c + 1))
+    if kind == "sample":
+        return (slice(b, b + 1), slice(None))
+    return (slice(b, b + 1), slice(c, c + 1))
+
+
+def _probes(case):
+    out = []
+    for p in case.get("probes", []):
+        out.append((int(p[0]), int(p[1]), p[2] if len(p) > 2 else "cell"))
+    return out
+
+
+def _struct(res, where, out, B, C, torch):
+    if not (isinstance(out, tuple) and len(out) == 2):
+        res.fail(f"{where}:shape-dtype", f"expected a 2-tuple, got {type(out)}")
+        return None
+    pts, vals = out
+    if not (tuple(pts.shape) == (B, C, 2) and pts.dtype == torch.float32 and tuple(vals.shape) == (B, C) and vals.dtype == torch.float32):
+        res.fail(f"{where}:shape-dtype", f"points {tuple(pts.shape)} {pts.dtype}, vals {tuple(vals.shape)} {vals.dtype} for B={B} C={C}")
+        return None
+    return pts.detach().cpu().numpy().copy(), vals.detach().cpu().numpy().copy()
+
+
+def _same(a, b):
+    return a.shape == b.shape and np.array_equal(a, b, equal_nan=True)
+
+
+def judge_rough(res, arr, thr, rough):
+    """Clauses (1) and (2).  Returns per-slot status dict: 'invalid' | 'ok' | 'wrong'."""
+    B, C, H, W = arr.shape
+    pts, vals = rough
+    status = {}
+    for b in range(B):
+        for c in range(C):
+            m = arr[b, c]
+            mx = m.max()
+            x, y, v = float(pts[b, c, 0]), float(pts[b, c, 1]), float(vals[b, c])
+            if mx < thr:
+                status[(b, c)] = "invalid"
+                if not (np.isnan(x) and np.isnan(y)):
+                    res.fail("global:below-threshold:coords-not-nan", f"(b={b},c={c}) max {float(mx)!r} < thr {thr!r} but coordinates ({x},{y})")
+                if not (v == 0.0):
+                    res.fail("global:below-threshold:value-not-zero", f"(b={b},c={c}) max {float(mx)!r} < thr {thr!r} but value {v!r}")
+                continue
+            n_at = int((m == mx).sum())
+            cls = "tied-maxima" if n_at > 1 else "unique-max"
+            status[(b, c)] = "wrong"
+            if np.isnan(x) or np.isnan(y):
+                res.fail("global:valid-reported-missing", f"(b={b},c={c}) max {float(mx)!r} >= thr {thr!r} but coordinates ({x},{y})")
+                continue
+            if not (x == int(x) and y == int(y) and 0 <= x < W and 0 <= y < H):
+                res.fail("global:out-of-range", f"(b={b},c={c}) coordinates ({x},{y}) for a {H}x{W} map")
+                continue
+            if not (m[int(y), int(x)] == mx):
+                res.fail(
+                    f"global:max-membership:{cls}",
+                    f"(b={b},c={c}) reported cell (x={int(x)},y={int(y)}) holds {float(m[int(y), int(x)])!r} but the map maximum is {float(mx)!r} "
+                    f"(attained {n_at}x, first at {tuple(int(i) for i in np.argwhere(m == mx)[0])[::-1]} as (x,y)); shape {H}x{W}",
+                )
+            else:
+                status[(b, c)] = "ok"
+            if not (v == float(mx)):
+                res.fail("global:value", f"(b={b},c={c}) reported value {v!r}, map maximum {float(mx)!r}")
+    return status
+
+
+def judge_refined(res, arr, thr, patch, rough, status, refined, prefix="refine"):
+    """Clause (4): values, NaN pattern, half-patch bound.  Returns per-slot patch class."""
+    B, C, H, W = arr.shape
+    pts, vals = rough
+    rpts, rvals = refined
+    if not _same(rvals, vals):
+        res.fail(f"{prefix}:values", f"peak values changed by refinement: {vals.tolist()} -> {rvals.tolist()}")
+    half = patch / 2.0
+    pclass = {}
+    for b in range(B):
+        for c in range(C):
+            st_ = status[(b, c)]
+            if st_ == "invalid":
+                if not np.isnan(rpts[b, c]).all():
+                    res.fail(f"{prefix}:invalid-became-valid", f"(b={b},c={c}) is below threshold but refined coordinates are {rpts[b, c].tolist()}")
+                continue
+            if st_ == "wrong":
+                res.excluded += 1
+                continue
+            x, y = int(pts[b, c, 0]), int(pts[b, c, 1])
+            pc = pm.patch_class(arr[b, c], y, x, patch)
+            pclass[(b, c)] = pc
+            res.n_evals += 1
+            if pc == "zero-mass":
+                res.excluded += 1
+                continue
+            d = rpts[b, c].astype(np.float64) - pts[b, c].astype(np.float64)
+            # patch/2 is the property's bound; with non-negative weights the centre of mass of the
+            # sample grid lies within (patch-1)/2, the remaining 0.5 absorbs every rounding effect
+            if not (np.isfinite(d).all() and (np.abs(d) <= half).all()):
+                key = f"{prefix}:half-patch-bound:" + ("nonneg-patch" if pc == "nonneg" else "negative-patch")
+                res.fail(
+                    key,
+                    f"(b={b},c={c}) peak at (x={x},y={y}) value {float(vals[b, c])!r} moved by ({float(d[0]):.6g},{float(d[1]):.6g}) with patch {patch} (bound {half}); patch class {pc}",
+                )
+    return pclass
 
 
 def _as_tuples(pts, vals, si, ci):
@@ -109,6 +353,12 @@ def _restrict(tup, b, c):
 
 
 def evaluate(case):
+    layout = case.get("layout") or {"kind": "contiguous"}
+    res = _evaluate(case, layout)
+    return attribute_layout(res, layout, lambda: _evaluate(case, {"kind": "contiguous"}))
+
+
+def _evaluate(case, layout):
     import torch
 
     from sleap_nn.inference.peak_finding import find_local_peaks, find_local_peaks_rough
@@ -118,8 +368,10 @@ def evaluate(case):
     B, C, H, W = arr.shape
     thr = float(case["thr"])
     patch = int(case["patch"])
-    probes = [tuple(p) for p in case.get("probes", [])]
-    cms = torch.from_numpy(arr.copy())
+    probes = _probes(case)
+
+    def cms():
+        return build_layout(arr, layout, torch)
 
     # ---------------- oracle sets
     expected = {}
@@ -157,10 +409,16 @@ def evaluate(case):
         res.cls("has-negative-values")
     for p in sorted(pos):
         res.cls(f"true-peak-on-{p}")
+    noncontig = layout_classes(res, arr, layout, torch)
+    res.cls(f"model={case['model']}|layout={layout['kind']}")
+    if n_exp and (n_weak or tied_max):
+        res.cls("peaks-and-ties|layout-strides=" + ("noncontiguous" if noncontig else "contiguous"))
+    for _, _, k in probes:
+        res.cls(f"probe={k}")
     res.n_evals = B * C
 
     # ---------------- rough detector vs brute force
-    out = runner.guarded(res, "rough", find_local_peaks_rough, cms, thr)
+    out = runner.guarded(res, "rough", find_local_peaks_rough, cms(), thr)
     if out is runner.FAILED:
         return res
     rough = _check_struct(res, "rough", out, torch)
@@ -201,35 +459,41 @@ def evaluate(case):
         )
 
     # ---------------- batch / channel independence of the rough detector
-    for b, c in probes:
-        one = runner.guarded(res, "independence", find_local_peaks_rough, cms[b : b + 1, c : c + 1], thr)
+    for b, c, kind in probes:
+        blk = _block(kind, b, c)
+        bs, cs = list(range(B))[blk[0]], list(range(C))[blk[1]]
+        one = runner.guarded(res, "independence", find_local_peaks_rough, cms()[blk], thr)
         if one is runner.FAILED:
             continue
-        res.n_evals += 1
+        res.n_evals += len(bs) * len(cs)
         one = _check_struct(res, "independence", one, torch)
         if one is None:
             continue
         opts, ovals, osi, oci = one
-        if (osi != 0).any() or (oci != 0).any():
-            res.fail("independence:rough", "single-map call returned non-zero sample/channel indices")
-        bp, bv = _restrict(rough, b, c)
-        a = sorted((float(p[1]), float(p[0]), float(v)) for p, v in zip(bp, bv))
-        o = sorted((float(p[1]), float(p[0]), float(v)) for p, v in zip(opts, ovals))
-        if a != o:
-            res.fail(
-                "independence:rough",
-                f"peaks of map (b={b},c={c}) inside the batch {a[:6]} differ from the same map alone {o[:6]}",
-            )
+        if ((osi < 0) | (osi >= len(bs)) | (oci < 0) | (oci >= len(cs))).any():
+            res.fail("independence:rough", f"{kind} probe (b={b},c={c}): sub-batch call returned sample/channel indices outside the sub-batch")
+            continue
+        for ib, bb in enumerate(bs):
+            for ic, cc in enumerate(cs):
+                bp, bv = _restrict(rough, bb, cc)
+                op, ov = _restrict(one, ib, ic)
+                a = sorted((float(p[1]), float(p[0]), float(v)) for p, v in zip(bp, bv))
+                o = sorted((float(p[1]), float(p[0]), float(v)) for p, v in zip(op, ov))
+                if a != o:
+                    res.fail(
+                        "independence:rough",
+                        f"{kind} probe (b={b},c={c}): peaks of map (b={bb},c={cc}) inside the batch {a[:6]} differ from the same map in the sub-batch {o[:6]}",
+                    )
 
     # ---------------- refinement
-    r0 = runner.guarded(res, "refine-none", find_local_peaks, cms, thr, None, patch)
+    r0 = runner.guarded(res, "refine-none", find_local_peaks, cms(), thr, None, patch)
     if r0 is not runner.FAILED:
         r0 = _check_struct(res, "refine-none", r0, torch)
         if r0 is not None:
             same = all(a.shape == b_.shape and np.array_equal(a, b_) for a, b_ in zip(r0, rough))
             if not same:
                 res.fail("refine:none-equals-rough", "find_local_peaks(refinement=None) differs from find_local_peaks_rough")
-    r1 = runner.guarded(res, "refine", find_local_peaks, cms, thr, "integral", patch)
+    r1 = runner.guarded(res, "refine", find_local_peaks, cms(), thr, "integral", patch)
     if r1 is runner.FAILED or bad_range:
         return res
     r1 = _check_struct(res, "refine", r1, torch)
@@ -266,40 +530,81 @@ def evaluate(case):
     for pc in sorted(set(pclass)):
         res.cls(f"refine={pc}-patch")
 
-    # refined result of one map alone vs inside the batch
-    for b, c in probes:
-        one = runner.guarded(res, "independence", find_local_peaks, cms[b : b + 1, c : c + 1], thr, "integral", patch)
+    # refined result of one map / channel / sample alone vs inside the batch
+    for b, c, kind in probes:
+        blk = _block(kind, b, c)
+        bs, cs = list(range(B))[blk[0]], list(range(C))[blk[1]]
+        one = runner.guarded(res, "independence", find_local_peaks, cms()[blk], thr, "integral", patch)
         if one is runner.FAILED:
             continue
-        res.n_evals += 1
+        res.n_evals += len(bs) * len(cs)
         one = _check_struct(res, "independence", one, torch)
         if one is None:
             continue
-        opts = one[0]
-        idx = [i for i in range(len(vals)) if int(si[i]) == b and int(ci[i]) == c]
-        if len(idx) != len(opts):
-            res.fail("independence:refined", f"map (b={b},c={c}): {len(idx)} refined peaks in the batch, {len(opts)} alone")
-            continue
-        # both calls enumerate one map's peaks in the same (row-major) order as their own rough pass;
-        # match by rough cell to stay independent of that
-        single_rough = runner.guarded(res, "independence", find_local_peaks_rough, cms[b : b + 1, c : c + 1], thr)
+        opts, _, osi, oci = one
+        # both calls enumerate the peaks in the same order as their own rough pass; match by rough cell
+        # to stay independent of that order
+        single_rough = runner.guarded(res, "independence", find_local_peaks_rough, cms()[blk], thr)
         if single_rough is runner.FAILED:
             continue
-        key_single = {(float(p[0]), float(p[1])): j for j, p in enumerate(single_rough[0].numpy())}
-        for i in idx:
-            if pclass[i] != "nonneg":
-                if pclass[i] == "negative":
-                    res.excluded += 1
-                continue
-            j = key_single.get((float(pts[i, 0]), float(pts[i, 1])))
-            if j is None:
-                continue  # already reported by independence:rough
-            diff = np.abs(opts[j].astype(np.float64) - rpts[i].astype(np.float64))
-            if not (np.isfinite(diff).all() and (diff <= TOL_INDEP).all()):
-                res.fail(
-                    "independence:refined",
-                    f"map (b={b},c={c}) cell (x={pts[i, 0]},y={pts[i, 1]}): refined {rpts[i].tolist()} inside the batch, {opts[j].tolist()} alone",
-                )
+        single_rough = _check_struct(res, "independence", single_rough, torch)
+        if single_rough is None:
+            continue
+        if len(single_rough[1]) != len(opts):
+            res.fail("independence:refined", f"{kind} probe (b={b},c={c}): {len(single_rough[1])} rough but {len(opts)} refined peaks in the sub-batch")
+            continue
+        key_single = {
+            (int(single_rough[2][j]), int(single_rough[3][j]), float(single_rough[0][j, 0]), float(single_rough[0][j, 1])): j for j in range(len(opts))
+        }
+        for ib, bb in enumerate(bs):
+            for ic, cc in enumerate(cs):
+                idx = [i for i in range(len(vals)) if int(si[i]) == bb and int(ci[i]) == cc]
+                n_one = int(((osi == ib) & (oci == ic)).sum())
+                if len(idx) != n_one:
+                    res.fail("independence:refined", f"{kind} probe (b={b},c={c}): map (b={bb},c={cc}) has {len(idx)} refined peaks in the batch, {n_one} in the sub-batch")
+                    continue
+                for i in idx:
+                    if pclass[i] != "nonneg":
+                        if pclass[i] == "negative":
+                            res.excluded += 1
+                        continue
+                    j = key_single.get((ib, ic, float(pts[i, 0]), float(pts[i, 1])))
+                    if j is None:
+                        continue  # already reported by independence:rough
+                    diff = np.abs(opts[j].astype(np.float64) - rpts[i].astype(np.float64))
+                    if not (np.isfinite(diff).all() and (diff <= TOL_INDEP).all()):
+                        res.fail(
+                            "independence:refined",
+                            f"{kind} probe (b={b},c={c}): map (b={bb},c={cc}) cell (x={pts[i, 0]},y={pts[i, 1]}): refined {rpts[i].tolist()} inside the batch, {opts[j].tolist()} in the sub-batch",
+                        )
+
+    # ---------------- layout metamorphic: same values, other strides.  The set of peaks is fixed by the
+    # statement (so it must equal the one for the contiguous copy); refined coordinates of the same rough
+    # cell are compared with TOL_INDEP for non-negative patches, as for the sub-batch re-runs
+    if layout["kind"] != "contiguous":
+        ref = runner.guarded(res, "layout", find_local_peaks_rough, torch.from_numpy(arr.copy()), thr)
+        rref = runner.guarded(res, "layout", find_local_peaks, torch.from_numpy(arr.copy()), thr, "integral", patch)
+        ref = None if ref is runner.FAILED else _check_struct(res, "layout", ref, torch)
+        rref = None if rref is runner.FAILED else _check_struct(res, "layout", rref, torch)
+        if ref is not None:
+            res.n_evals += 1
+            a = sorted((int(si[i]), int(ci[i]), float(pts[i, 1]), float(pts[i, 0]), float(vals[i])) for i in range(len(vals)))
+            o = sorted((int(ref[2][i]), int(ref[3][i]), float(ref[0][i, 1]), float(ref[0][i, 0]), float(ref[1][i])) for i in range(len(ref[1])))
+            if a != o:
+                res.fail("layout:peaks-differ-from-contiguous", f"{len(a)} peaks for this layout, {len(o)} for the contiguous copy; first difference {sorted(set(a) ^ set(o))[:4]}")
+            elif rref is not None and len(rref[1]) == len(ref[1]):
+                key_ref = {(int(ref[2][j]), int(ref[3][j]), float(ref[0][j, 0]), float(ref[0][j, 1])): j for j in range(len(ref[1]))}
+                for i in range(len(vals)):
+                    if pclass[i] != "nonneg":
+                        continue
+                    j = key_ref[(int(si[i]), int(ci[i]), float(pts[i, 0]), float(pts[i, 1]))]
+                    diff = np.abs(rref[0][j].astype(np.float64) - rpts[i].astype(np.float64))
+                    res.n_evals += 1
+                    if not (np.isfinite(diff).all() and (diff <= TOL_INDEP).all()):
+                        res.fail(
+                            "layout:refined-differs-from-contiguous",
+                            f"peak (b={int(si[i])},c={int(ci[i])},x={pts[i, 0]},y={pts[i, 1]}): refined {rpts[i].tolist()} for this layout, {rref[0][j].tolist()} for the contiguous copy (patch {patch})",
+                        )
     return res
 
 
@@ -308,19 +613,27 @@ def strategy():
 
     @st.composite
     def build(draw):
-        shape_cls, B, C, H, W, model, arr = pm.draw_maps(draw, st, pm.LOCAL_MODELS)
+        # value model and memory layout are ONE choice (joint coverage of every pair)
+        model, lkind = draw(st.sampled_from(MODEL_LAYOUT_PAIRS))
+        shape_cls, B, C, H, W, model, arr = pm.draw_maps(draw, st, [model])
+        layout = draw_layout(draw, st, lkind)
+        expand_values(arr, layout)
         thr_kind, thr = pm.draw_threshold(draw, st, arr)
         patch = draw(st.sampled_from([3, 3, 5, 5, 5, 7, 4, 4]))
         slots = [(b, c) for b in range(B) for c in range(C)]
         if len(slots) > 3:
             slots = draw(st.lists(st.sampled_from(slots), min_size=3, max_size=3, unique=True))
+        # a probe re-runs one map alone, one whole channel (cms[:, c:c+1]: strided whenever B > 1) or one
+        # whole sample (cms[b:b+1]); for B*C == 1 all three are the batch itself
+        kinds = [draw(st.sampled_from(PROBE_KINDS)) if B * C > 1 else "cell" for _ in slots]
         return {
             "model": model,
             "shape": shape_cls,
             "thr_kind": thr_kind,
             "thr": thr,
             "patch": patch,
-            "probes": [list(s) for s in slots],
+            "probes": [[s[0], s[1], k] for s, k in zip(slots, kinds)],
+            "layout": layout,
             "maps": pm.to_case_maps(arr),
         }
 
